@@ -99,6 +99,13 @@ func main() {
 				os.Exit(2)
 			}
 			res = runIdleCase(&c)
+		case "http":
+			var c HttpCase
+			if err := json.Unmarshal(b, &c); err != nil {
+				fmt.Fprintf(os.Stderr, "line %d: %v\n", line, err)
+				os.Exit(2)
+			}
+			res = runHttpCase(&c)
 		case "pool":
 			var c PoolCase
 			if err := json.Unmarshal(b, &c); err != nil {
